@@ -416,10 +416,14 @@ class nx_flow_mod (of.ofp_flow_mod, of.ofp_vendor_base):
             self.hard_timeout, self.priority, self._buffer_id,
             self.out_port, self.flags, match_len) = \
             _unpack("!QHHHHLHHH", raw, offset)
-    offset = self._skip(raw, offset, 6)
+    offset = _skip(raw, offset, 6)
     offset = self.match.unpack(raw, offset, match_len)
+    offset = _skip(raw, offset, (match_len + 7)//8*8 - match_len)
     offset,self.actions = of._unpack_actions(raw,
         length-(offset - _o), offset)
+    # pack() carries table_id in the high byte of the command field
+    self.table_id = self.command >> 8
+    self.command &= 0xff
     assert length == len(self)
     return offset,length
 
